@@ -42,7 +42,14 @@ func newFilePager(file string) (*filePager, error) {
 // pages start counting at 1
 func (f *filePager) page(id int, pagesize int) ([]byte, error) {
 	buf := make([]byte, pagesize)
-	_, err := f.mm.ReadAt(buf[:], int64(id-1)*int64(pagesize))
+	off := int64(id-1) * int64(pagesize)
+	_, err := f.mm.ReadAt(buf[:], off)
+	if err != nil {
+		// The memory map has the size the file had when we opened it, but
+		// another process can have made the file bigger since. Read what's
+		// not mapped straight from the file.
+		_, err = f.f.ReadAt(buf[:], off)
+	}
 	return buf, err
 }
 
